@@ -16,6 +16,12 @@ Inductive liveness := Reachable | Unreachable | Unknown.
 (* tikvrpc.Request.StoreTp: which kind of node serves the request (zero value: TiKV) *)
 Inductive store_tp := TpTiKV | TpTiFlash | TpTiDB.
 Definition is_tidb (t : store_tp) : bool := match t with TpTiDB => true | _ => false end.
+(* when the caller cancels the context / the kill flag is set: never, before the call, while attempt i is in flight
+   (the answer of attempt i still arrives), or during the j-th back-off sleep of the call *)
+Inductive trigger := TNever | TPre | TAtt (i : nat) | TBo (j : nat).
+Definition trig_pre (t : trigger) : bool := match t with TPre => true | _ => false end.
+Definition trig_att (t : trigger) (i : nat) : bool := match t with TAtt k => k =? i | _ => false end.
+Definition trig_bo (t : trigger) (j : nat) : bool := match t with TBo k => k =? j | _ => false end.
 
 Definition rt_eqb (a b : read_type) : bool :=
   match a, b with
@@ -112,34 +118,45 @@ Record state := mkState {
   orc_r : list nat;
   orc_s : list N;
   proxy : option nat;
-  rearmed_v : list nat }.
-Definition set_reps (v : list rep) (s : state) : state := mkState (v) (leader s) (valid s) (rt s) (sel_attempts s) (inv_retry s) (busy_thr s) (lb_count s) (lb_peer s) (lb_probed s) (q_rt s) (q_rr s) (q_stale s) (q_retry s) (bo_total s) (bo_excl s) (orc_r s) (orc_s s) (proxy s) (rearmed_v s).
-Definition set_leader (v : nat) (s : state) : state := mkState (reps s) (v) (valid s) (rt s) (sel_attempts s) (inv_retry s) (busy_thr s) (lb_count s) (lb_peer s) (lb_probed s) (q_rt s) (q_rr s) (q_stale s) (q_retry s) (bo_total s) (bo_excl s) (orc_r s) (orc_s s) (proxy s) (rearmed_v s).
-Definition set_valid (v : bool) (s : state) : state := mkState (reps s) (leader s) (v) (rt s) (sel_attempts s) (inv_retry s) (busy_thr s) (lb_count s) (lb_peer s) (lb_probed s) (q_rt s) (q_rr s) (q_stale s) (q_retry s) (bo_total s) (bo_excl s) (orc_r s) (orc_s s) (proxy s) (rearmed_v s).
-Definition set_rt (v : read_type) (s : state) : state := mkState (reps s) (leader s) (valid s) (v) (sel_attempts s) (inv_retry s) (busy_thr s) (lb_count s) (lb_peer s) (lb_probed s) (q_rt s) (q_rr s) (q_stale s) (q_retry s) (bo_total s) (bo_excl s) (orc_r s) (orc_s s) (proxy s) (rearmed_v s).
-Definition set_sel_attempts (v : nat) (s : state) : state := mkState (reps s) (leader s) (valid s) (rt s) (v) (inv_retry s) (busy_thr s) (lb_count s) (lb_peer s) (lb_probed s) (q_rt s) (q_rr s) (q_stale s) (q_retry s) (bo_total s) (bo_excl s) (orc_r s) (orc_s s) (proxy s) (rearmed_v s).
-Definition set_inv_retry (v : bool) (s : state) : state := mkState (reps s) (leader s) (valid s) (rt s) (sel_attempts s) (v) (busy_thr s) (lb_count s) (lb_peer s) (lb_probed s) (q_rt s) (q_rr s) (q_stale s) (q_retry s) (bo_total s) (bo_excl s) (orc_r s) (orc_s s) (proxy s) (rearmed_v s).
-Definition set_busy_thr (v : bool) (s : state) : state := mkState (reps s) (leader s) (valid s) (rt s) (sel_attempts s) (inv_retry s) (v) (lb_count s) (lb_peer s) (lb_probed s) (q_rt s) (q_rr s) (q_stale s) (q_retry s) (bo_total s) (bo_excl s) (orc_r s) (orc_s s) (proxy s) (rearmed_v s).
-Definition set_lb_count (v : nat) (s : state) : state := mkState (reps s) (leader s) (valid s) (rt s) (sel_attempts s) (inv_retry s) (busy_thr s) (v) (lb_peer s) (lb_probed s) (q_rt s) (q_rr s) (q_stale s) (q_retry s) (bo_total s) (bo_excl s) (orc_r s) (orc_s s) (proxy s) (rearmed_v s).
-Definition set_lb_peer (v : option nat) (s : state) : state := mkState (reps s) (leader s) (valid s) (rt s) (sel_attempts s) (inv_retry s) (busy_thr s) (lb_count s) (v) (lb_probed s) (q_rt s) (q_rr s) (q_stale s) (q_retry s) (bo_total s) (bo_excl s) (orc_r s) (orc_s s) (proxy s) (rearmed_v s).
-Definition set_lb_probed (v : bool) (s : state) : state := mkState (reps s) (leader s) (valid s) (rt s) (sel_attempts s) (inv_retry s) (busy_thr s) (lb_count s) (lb_peer s) (v) (q_rt s) (q_rr s) (q_stale s) (q_retry s) (bo_total s) (bo_excl s) (orc_r s) (orc_s s) (proxy s) (rearmed_v s).
-Definition set_q_rt (v : read_type) (s : state) : state := mkState (reps s) (leader s) (valid s) (rt s) (sel_attempts s) (inv_retry s) (busy_thr s) (lb_count s) (lb_peer s) (lb_probed s) (v) (q_rr s) (q_stale s) (q_retry s) (bo_total s) (bo_excl s) (orc_r s) (orc_s s) (proxy s) (rearmed_v s).
-Definition set_q_rr (v : bool) (s : state) : state := mkState (reps s) (leader s) (valid s) (rt s) (sel_attempts s) (inv_retry s) (busy_thr s) (lb_count s) (lb_peer s) (lb_probed s) (q_rt s) (v) (q_stale s) (q_retry s) (bo_total s) (bo_excl s) (orc_r s) (orc_s s) (proxy s) (rearmed_v s).
-Definition set_q_stale (v : bool) (s : state) : state := mkState (reps s) (leader s) (valid s) (rt s) (sel_attempts s) (inv_retry s) (busy_thr s) (lb_count s) (lb_peer s) (lb_probed s) (q_rt s) (q_rr s) (v) (q_retry s) (bo_total s) (bo_excl s) (orc_r s) (orc_s s) (proxy s) (rearmed_v s).
-Definition set_q_retry (v : bool) (s : state) : state := mkState (reps s) (leader s) (valid s) (rt s) (sel_attempts s) (inv_retry s) (busy_thr s) (lb_count s) (lb_peer s) (lb_probed s) (q_rt s) (q_rr s) (q_stale s) (v) (bo_total s) (bo_excl s) (orc_r s) (orc_s s) (proxy s) (rearmed_v s).
-Definition set_bo_total (v : N) (s : state) : state := mkState (reps s) (leader s) (valid s) (rt s) (sel_attempts s) (inv_retry s) (busy_thr s) (lb_count s) (lb_peer s) (lb_probed s) (q_rt s) (q_rr s) (q_stale s) (q_retry s) (v) (bo_excl s) (orc_r s) (orc_s s) (proxy s) (rearmed_v s).
-Definition set_bo_excl (v : N) (s : state) : state := mkState (reps s) (leader s) (valid s) (rt s) (sel_attempts s) (inv_retry s) (busy_thr s) (lb_count s) (lb_peer s) (lb_probed s) (q_rt s) (q_rr s) (q_stale s) (q_retry s) (bo_total s) (v) (orc_r s) (orc_s s) (proxy s) (rearmed_v s).
-Definition set_orc_r (v : list nat) (s : state) : state := mkState (reps s) (leader s) (valid s) (rt s) (sel_attempts s) (inv_retry s) (busy_thr s) (lb_count s) (lb_peer s) (lb_probed s) (q_rt s) (q_rr s) (q_stale s) (q_retry s) (bo_total s) (bo_excl s) (v) (orc_s s) (proxy s) (rearmed_v s).
-Definition set_orc_s (v : list N) (s : state) : state := mkState (reps s) (leader s) (valid s) (rt s) (sel_attempts s) (inv_retry s) (busy_thr s) (lb_count s) (lb_peer s) (lb_probed s) (q_rt s) (q_rr s) (q_stale s) (q_retry s) (bo_total s) (bo_excl s) (orc_r s) (v) (proxy s) (rearmed_v s).
-Definition set_proxy (v : option nat) (s : state) : state := mkState (reps s) (leader s) (valid s) (rt s) (sel_attempts s) (inv_retry s) (busy_thr s) (lb_count s) (lb_peer s) (lb_probed s) (q_rt s) (q_rr s) (q_stale s) (q_retry s) (bo_total s) (bo_excl s) (orc_r s) (orc_s s) (v) (rearmed_v s).
-Definition set_rearmed_v (v : list nat) (s : state) : state := mkState (reps s) (leader s) (valid s) (rt s) (sel_attempts s) (inv_retry s) (busy_thr s) (lb_count s) (lb_peer s) (lb_probed s) (q_rt s) (q_rr s) (q_stale s) (q_retry s) (bo_total s) (bo_excl s) (orc_r s) (orc_s s) (proxy s) (v).
+  rearmed_v : list nat;
+  dead : bool;
+  killed : bool;
+  n_bo : nat }.
+Definition set_reps (v : list rep) (s : state) : state := mkState (v) (leader s) (valid s) (rt s) (sel_attempts s) (inv_retry s) (busy_thr s) (lb_count s) (lb_peer s) (lb_probed s) (q_rt s) (q_rr s) (q_stale s) (q_retry s) (bo_total s) (bo_excl s) (orc_r s) (orc_s s) (proxy s) (rearmed_v s) (dead s) (killed s) (n_bo s).
+Definition set_leader (v : nat) (s : state) : state := mkState (reps s) (v) (valid s) (rt s) (sel_attempts s) (inv_retry s) (busy_thr s) (lb_count s) (lb_peer s) (lb_probed s) (q_rt s) (q_rr s) (q_stale s) (q_retry s) (bo_total s) (bo_excl s) (orc_r s) (orc_s s) (proxy s) (rearmed_v s) (dead s) (killed s) (n_bo s).
+Definition set_valid (v : bool) (s : state) : state := mkState (reps s) (leader s) (v) (rt s) (sel_attempts s) (inv_retry s) (busy_thr s) (lb_count s) (lb_peer s) (lb_probed s) (q_rt s) (q_rr s) (q_stale s) (q_retry s) (bo_total s) (bo_excl s) (orc_r s) (orc_s s) (proxy s) (rearmed_v s) (dead s) (killed s) (n_bo s).
+Definition set_rt (v : read_type) (s : state) : state := mkState (reps s) (leader s) (valid s) (v) (sel_attempts s) (inv_retry s) (busy_thr s) (lb_count s) (lb_peer s) (lb_probed s) (q_rt s) (q_rr s) (q_stale s) (q_retry s) (bo_total s) (bo_excl s) (orc_r s) (orc_s s) (proxy s) (rearmed_v s) (dead s) (killed s) (n_bo s).
+Definition set_sel_attempts (v : nat) (s : state) : state := mkState (reps s) (leader s) (valid s) (rt s) (v) (inv_retry s) (busy_thr s) (lb_count s) (lb_peer s) (lb_probed s) (q_rt s) (q_rr s) (q_stale s) (q_retry s) (bo_total s) (bo_excl s) (orc_r s) (orc_s s) (proxy s) (rearmed_v s) (dead s) (killed s) (n_bo s).
+Definition set_inv_retry (v : bool) (s : state) : state := mkState (reps s) (leader s) (valid s) (rt s) (sel_attempts s) (v) (busy_thr s) (lb_count s) (lb_peer s) (lb_probed s) (q_rt s) (q_rr s) (q_stale s) (q_retry s) (bo_total s) (bo_excl s) (orc_r s) (orc_s s) (proxy s) (rearmed_v s) (dead s) (killed s) (n_bo s).
+Definition set_busy_thr (v : bool) (s : state) : state := mkState (reps s) (leader s) (valid s) (rt s) (sel_attempts s) (inv_retry s) (v) (lb_count s) (lb_peer s) (lb_probed s) (q_rt s) (q_rr s) (q_stale s) (q_retry s) (bo_total s) (bo_excl s) (orc_r s) (orc_s s) (proxy s) (rearmed_v s) (dead s) (killed s) (n_bo s).
+Definition set_lb_count (v : nat) (s : state) : state := mkState (reps s) (leader s) (valid s) (rt s) (sel_attempts s) (inv_retry s) (busy_thr s) (v) (lb_peer s) (lb_probed s) (q_rt s) (q_rr s) (q_stale s) (q_retry s) (bo_total s) (bo_excl s) (orc_r s) (orc_s s) (proxy s) (rearmed_v s) (dead s) (killed s) (n_bo s).
+Definition set_lb_peer (v : option nat) (s : state) : state := mkState (reps s) (leader s) (valid s) (rt s) (sel_attempts s) (inv_retry s) (busy_thr s) (lb_count s) (v) (lb_probed s) (q_rt s) (q_rr s) (q_stale s) (q_retry s) (bo_total s) (bo_excl s) (orc_r s) (orc_s s) (proxy s) (rearmed_v s) (dead s) (killed s) (n_bo s).
+Definition set_lb_probed (v : bool) (s : state) : state := mkState (reps s) (leader s) (valid s) (rt s) (sel_attempts s) (inv_retry s) (busy_thr s) (lb_count s) (lb_peer s) (v) (q_rt s) (q_rr s) (q_stale s) (q_retry s) (bo_total s) (bo_excl s) (orc_r s) (orc_s s) (proxy s) (rearmed_v s) (dead s) (killed s) (n_bo s).
+Definition set_q_rt (v : read_type) (s : state) : state := mkState (reps s) (leader s) (valid s) (rt s) (sel_attempts s) (inv_retry s) (busy_thr s) (lb_count s) (lb_peer s) (lb_probed s) (v) (q_rr s) (q_stale s) (q_retry s) (bo_total s) (bo_excl s) (orc_r s) (orc_s s) (proxy s) (rearmed_v s) (dead s) (killed s) (n_bo s).
+Definition set_q_rr (v : bool) (s : state) : state := mkState (reps s) (leader s) (valid s) (rt s) (sel_attempts s) (inv_retry s) (busy_thr s) (lb_count s) (lb_peer s) (lb_probed s) (q_rt s) (v) (q_stale s) (q_retry s) (bo_total s) (bo_excl s) (orc_r s) (orc_s s) (proxy s) (rearmed_v s) (dead s) (killed s) (n_bo s).
+Definition set_q_stale (v : bool) (s : state) : state := mkState (reps s) (leader s) (valid s) (rt s) (sel_attempts s) (inv_retry s) (busy_thr s) (lb_count s) (lb_peer s) (lb_probed s) (q_rt s) (q_rr s) (v) (q_retry s) (bo_total s) (bo_excl s) (orc_r s) (orc_s s) (proxy s) (rearmed_v s) (dead s) (killed s) (n_bo s).
+Definition set_q_retry (v : bool) (s : state) : state := mkState (reps s) (leader s) (valid s) (rt s) (sel_attempts s) (inv_retry s) (busy_thr s) (lb_count s) (lb_peer s) (lb_probed s) (q_rt s) (q_rr s) (q_stale s) (v) (bo_total s) (bo_excl s) (orc_r s) (orc_s s) (proxy s) (rearmed_v s) (dead s) (killed s) (n_bo s).
+Definition set_bo_total (v : N) (s : state) : state := mkState (reps s) (leader s) (valid s) (rt s) (sel_attempts s) (inv_retry s) (busy_thr s) (lb_count s) (lb_peer s) (lb_probed s) (q_rt s) (q_rr s) (q_stale s) (q_retry s) (v) (bo_excl s) (orc_r s) (orc_s s) (proxy s) (rearmed_v s) (dead s) (killed s) (n_bo s).
+Definition set_bo_excl (v : N) (s : state) : state := mkState (reps s) (leader s) (valid s) (rt s) (sel_attempts s) (inv_retry s) (busy_thr s) (lb_count s) (lb_peer s) (lb_probed s) (q_rt s) (q_rr s) (q_stale s) (q_retry s) (bo_total s) (v) (orc_r s) (orc_s s) (proxy s) (rearmed_v s) (dead s) (killed s) (n_bo s).
+Definition set_orc_r (v : list nat) (s : state) : state := mkState (reps s) (leader s) (valid s) (rt s) (sel_attempts s) (inv_retry s) (busy_thr s) (lb_count s) (lb_peer s) (lb_probed s) (q_rt s) (q_rr s) (q_stale s) (q_retry s) (bo_total s) (bo_excl s) (v) (orc_s s) (proxy s) (rearmed_v s) (dead s) (killed s) (n_bo s).
+Definition set_orc_s (v : list N) (s : state) : state := mkState (reps s) (leader s) (valid s) (rt s) (sel_attempts s) (inv_retry s) (busy_thr s) (lb_count s) (lb_peer s) (lb_probed s) (q_rt s) (q_rr s) (q_stale s) (q_retry s) (bo_total s) (bo_excl s) (orc_r s) (v) (proxy s) (rearmed_v s) (dead s) (killed s) (n_bo s).
+Definition set_proxy (v : option nat) (s : state) : state := mkState (reps s) (leader s) (valid s) (rt s) (sel_attempts s) (inv_retry s) (busy_thr s) (lb_count s) (lb_peer s) (lb_probed s) (q_rt s) (q_rr s) (q_stale s) (q_retry s) (bo_total s) (bo_excl s) (orc_r s) (orc_s s) (v) (rearmed_v s) (dead s) (killed s) (n_bo s).
+Definition set_rearmed_v (v : list nat) (s : state) : state := mkState (reps s) (leader s) (valid s) (rt s) (sel_attempts s) (inv_retry s) (busy_thr s) (lb_count s) (lb_peer s) (lb_probed s) (q_rt s) (q_rr s) (q_stale s) (q_retry s) (bo_total s) (bo_excl s) (orc_r s) (orc_s s) (proxy s) (v) (dead s) (killed s) (n_bo s).
+Definition set_dead (v : bool) (s : state) : state := mkState (reps s) (leader s) (valid s) (rt s) (sel_attempts s) (inv_retry s) (busy_thr s) (lb_count s) (lb_peer s) (lb_probed s) (q_rt s) (q_rr s) (q_stale s) (q_retry s) (bo_total s) (bo_excl s) (orc_r s) (orc_s s) (proxy s) (rearmed_v s) (v) (killed s) (n_bo s).
+Definition set_killed (v : bool) (s : state) : state := mkState (reps s) (leader s) (valid s) (rt s) (sel_attempts s) (inv_retry s) (busy_thr s) (lb_count s) (lb_peer s) (lb_probed s) (q_rt s) (q_rr s) (q_stale s) (q_retry s) (bo_total s) (bo_excl s) (orc_r s) (orc_s s) (proxy s) (rearmed_v s) (dead s) (v) (n_bo s).
+Definition set_n_bo (v : nat) (s : state) : state := mkState (reps s) (leader s) (valid s) (rt s) (sel_attempts s) (inv_retry s) (busy_thr s) (lb_count s) (lb_peer s) (lb_probed s) (q_rt s) (q_rr s) (q_stale s) (q_retry s) (bo_total s) (bo_excl s) (orc_r s) (orc_s s) (proxy s) (rearmed_v s) (dead s) (killed s) (v).
 
 
 Record cfg := mkCfg {
   c_rt : read_type; c_stale : bool; c_read : bool; c_has_labels : bool; c_leader_only : bool;
   c_thr : bool; c_short_to : bool; c_max_sleep : N; c_val : bool; c_reps : list rep;
   c_fw : bool (* RegionCache.enableForwarding *);
-  c_store_tp : store_tp (* req.StoreTp; only the validation gate depends on it: the retry loop below is the TiKV one *) }.
+  c_store_tp : store_tp (* req.StoreTp; only the validation gate depends on it: the retry loop below is the TiKV one *);
+  c_cancel : trigger (* the caller's context is cancelled *);
+  c_kill : trigger (* kv.Variables.Killed is set *);
+  c_interruptible : bool (* req.IsInterruptible(): all commands but Commit, BatchRollback, PessimisticRollback *);
+  c_async : bool (* the call goes through SendReqAsync: the first attempt is prepared by initForAsyncRequest, which does not
+                    look at the kill flag; everything else is the same state machine (handleAsyncResponse, then next()) *) }.
 
 Definition dummy_rep : rep := mkRep max_replica_attempt false false false false false true Unreachable false false false false false false.
 Definition rep_at (s : state) (i : nat) : rep := nth i (reps s) dummy_rep.
@@ -159,13 +176,21 @@ Definition budget_exceeded (c : cfg) (k : bo_kind) (s : state) : bool :=
   ((c_max_sleep c <=? bo_total s - bo_excl s) ||
    (excluded k && (excl_limit <=? bo_excl s) && (c_max_sleep c <=? bo_excl s)))%N.
 
-Definition backoff (c : cfg) (k : bo_kind) (s : state) : option (state * event) :=
-  if (0 <? c_max_sleep c)%N && budget_exceeded c k s then None
+(* BoRefused: Backoff returned an error without sleeping (context done, or budget spent);
+   BoKilled: it slept and then found the kill flag set (CheckKilled after the sleep) *)
+Inductive bres := BoOk (s : state) (e : event) | BoRefused | BoKilled (e : event).
+
+Definition backoff (c : cfg) (k : bo_kind) (s : state) : bres :=
+  if dead s then BoRefused
+  else if (0 <? c_max_sleep c)%N && budget_exceeded c k s then BoRefused
   else let '(sl0, rest) := pop 0%N (orc_s s) in
        let sl := N.max sl0 (min_step k) in
        let s1 := set_orc_s rest (set_bo_total (bo_total s + sl)%N s) in
        let s2 := if excluded k then set_bo_excl (bo_excl s1 + sl)%N s1 else s1 in
-       Some (s2, EBo k sl).
+       (* the flags may be raised during this sleep *)
+       let s3 := set_n_bo (S (n_bo s)) (set_killed (killed s || trig_bo (c_kill c) (n_bo s))
+                   (set_dead (trig_bo (c_cancel c) (n_bo s)) s2)) in
+       if killed s3 then BoKilled (EBo k sl) else BoOk s3 (EBo k sl).
 
 (* ---------------- replica predicates ---------------- *)
 Definition exhausted (r : rep) (m : nat) : bool := m <=? attempts r.
@@ -309,12 +334,15 @@ Inductive hres := HRetry (s : state) (evs : list event) | HDone (r : result) (ev
 
 Definition with_backoff (c : cfg) (k : bo_kind) (s : state) (on_fail : result) : hres :=
   match backoff c k s with
-  | Some (s', e) => HRetry s' [e]
-  | None => HDone on_fail []
+  | BoOk s' e => HRetry s' [e]
+  | BoRefused => HDone on_fail []
+  | BoKilled e => HDone on_fail [e]
   end.
 
 (* RegionRequestSender.onSendFail + replicaSelector.onSendFailure *)
 Definition on_send_fail (c : cfg) (s : state) (t : nat) (deadline : bool) (l : liveness) : hres :=
+  (* sendReqState.send: an RPC error while the caller's context is cancelled ends the call at once *)
+  if dead s then HDone RError [] else
   if deadline && c_short_to c && c_read c then HRetry (upd_rep t (set_f_deadline true) s) []
   else
     let a := match proxy s with Some p => p | None => t end in   (* the accessed store: the proxy if there is one *)
@@ -401,8 +429,9 @@ Definition any_pending (s : state) : bool := existsb pending (reps s).
 Definition no_candidate (c : cfg) (s : state) : sres :=
   if any_pending s then
     match backoff c BoBusy s with
-    | Some (_, e) => SDone RPseudo [e]
-    | None => SDone RError []
+    | BoOk _ e => SDone RPseudo [e]
+    | BoRefused => SDone RError []
+    | BoKilled e => SDone RError [e]
     end
   else SDone RPseudo [].
 
@@ -429,8 +458,9 @@ Definition sel_phase (c : cfg) (s : state) : sres :=
                         (upd_rep t (fun r => set_attempts (S (attempts r)) r) (set_proxy (Some p) s1)) in
             if pending (rep_at s3 t) then
               match backoff c BoBusy (upd_rep t (set_pending false) s3) with
-              | Some (s4, e) => SSent s4 t [e; EProxy p]
-              | None => SDone RError []
+              | BoOk s4 e => SSent s4 t [e; EProxy p]
+              | BoRefused => SDone RError []
+              | BoKilled e => SDone RError [e]
               end
             else SSent s3 t [EProxy p]
       | PxLeaderOnly =>
@@ -443,8 +473,9 @@ Definition sel_phase (c : cfg) (s : state) : sres :=
             let s3 := upd_rep t (fun r => set_attempts (S (attempts r)) r) s2 in
             if pending (rep_at s3 t) then
               match backoff c BoBusy (upd_rep t (set_pending false) s3) with
-              | Some (s4, e) => SSent s4 t [e]
-              | None => SDone RError []
+              | BoOk s4 e => SSent s4 t [e]
+              | BoRefused => SDone RError []
+              | BoKilled e => SDone RError [e]
               end
             else SSent s3 t []
       end
@@ -457,9 +488,14 @@ Definition after_send (s : state) (t : nat) : state :=
     upd_rep t (fun r => if stat_init r then r else set_stat_init true (set_slow false r)) s
   else s.
 
+Definition raise_att (c : cfg) (i : nat) (s : state) : state :=
+  set_killed (killed s || trig_att (c_kill c) i) (set_dead (dead s || trig_att (c_cancel c) i) s).
+
 (* the retry loop of SendReqCtx: [prev] is the replica and the outcome of attempt i-1 *)
 Fixpoint loop_gen (fixed : bool) (c : cfg) (script : list outcome) (s : state) (prev : option (nat * outcome)) (i : nat) : list event * result :=
-  match (match prev with None => HRetry s [] | Some (t, o) => handle fixed c s t o (pred i) end) with
+  match (if c_interruptible c && killed s && negb (c_async c && (i =? 0))
+         then HDone RError []   (* next(): bo.CheckKilled() for interruptible requests *)
+         else match prev with None => HRetry s [] | Some (t, o) => handle fixed c s t o (pred i) end) with
   | HDone r evs => (evs, r)
   | HRetry s1 evs1 =>
       let s1' := if 0 <? i then set_q_retry true s1 else s1 in
@@ -467,12 +503,14 @@ Fixpoint loop_gen (fixed : bool) (c : cfg) (script : list outcome) (s : state) (
       | SDone r evs2 => (evs1 ++ evs2, r)
       | SSent s2 t evs2 =>
           let ev := EAtt t (q_rr s2) (q_stale s2) (q_retry s2) in
-          let s3 := after_send s2 t in
+          (* a client handed a cancelled context answers with the context error whatever the store would say;
+             otherwise the flags may be raised while the attempt is in flight *)
+          let s3 := raise_att c i (after_send s2 t) in
           match script with
-          | [] => (evs1 ++ evs2 ++ [ev], RSuccess i)
-          | OSuccess :: _ => (evs1 ++ evs2 ++ [ev], RSuccess i)
+          | [] => (evs1 ++ evs2 ++ [ev], if dead s2 then RError else RSuccess i)
+          | OSuccess :: _ => (evs1 ++ evs2 ++ [ev], if dead s2 then RError else RSuccess i)
           | o :: rest =>
-              let '(evs, r) := loop_gen fixed c rest s3 (Some (t, o)) (S i) in
+              let '(evs, r) := loop_gen fixed c rest s3 (Some (t, if dead s2 then ORpcErr Reachable else o)) (S i) in
               (evs1 ++ evs2 ++ ev :: evs, r)
           end
       end
@@ -481,7 +519,7 @@ Fixpoint loop_gen (fixed : bool) (c : cfg) (script : list outcome) (s : state) (
 Definition init_state (c : cfg) (rands : list nat) (sleeps : list N) : state :=
   mkState (c_reps c) 0 true (c_rt c) 0 false (c_thr c) 0 None false
           (c_rt c) (c_read c && negb (c_stale c) && negb (rt_eqb (c_rt c) RTLeader)) (c_read c && c_stale c) false
-          0%N 0%N rands sleeps None (map (fun _ => 0) (c_reps c)).
+          0%N 0%N rands sleeps None (map (fun _ => 0) (c_reps c)) (trig_pre (c_cancel c)) (trig_pre (c_kill c)) 0.
 
 (* RegionRequestSender.validateReadTS: requests served by a TiDB node are exempt, every other read (TiKV, TiFlash) is validated *)
 Definition validation_refuses (c : cfg) : bool := c_read c && negb (c_val c) && negb (is_tidb (c_store_tp c)).
